@@ -165,6 +165,7 @@ func playableSites(c *Ctx) []playableSite {
 				}
 				if call, ok := v.(*ssa.Call); ok {
 					if f := call.Common().StaticCallee(); f != nil && inModule(f) {
+						f = unwrapSearch(f, 0)
 						add(f, "search feeding "+strings.TrimPrefix(k, "seat_manager.SeatManager."), acceptHit(p, f))
 					}
 				}
@@ -532,6 +533,51 @@ func runC08(c *Ctx) {
 				}
 			}
 			c.check(len(bad) == 0, "closed-span", fnKey(f), p.FnPos(f), "every empty seat from the dealer up to the big blind is closed, along the ring", "seats between dealer and big blind are not closed as the property says: a newcomer there is dealt in early", uniq(bad, 3)...)
+		}
+	}
+
+	// ---- blinds-follow-button: every path of Next that does not refuse goes through the function
+	// that assigns the blinds (and closes / re-opens the seats around them). A shortcut that keeps
+	// last hand's blinds leaves them on seats that may no longer be playable
+	if next != nil {
+		var assigner *ssa.Function
+		for _, cc := range ix.Info[next].Calls {
+			if f := cc.StaticCallee(); f != nil && assigner == nil && ix.Info[f] != nil && ix.Info[f].TWrites["seat_manager.SeatManager.bb"] {
+				assigner = f
+			}
+		}
+		if assigner == nil {
+			c.undecided("blinds-follow-button", fnKey(next), p.FnPos(next), "no callee of Next assigns the big blind")
+		} else {
+			s := newSumm(p, 0)
+			s.EngineAliases = false
+			s.HelperInline = func(f *ssa.Function) bool {
+				return privateHelper(next, f) && f != assigner && ix.Info[f] != nil && !ix.Info[f].TWrites["seat_manager.SeatManager.bb"] && !ix.Info[f].TWrites["seat_manager.SeatManager.dealer"] && len(findLoops(f)) == 0
+			}
+			paths, _ := s.Function(next)
+			var bad []string
+			n := 0
+			for _, ps := range paths {
+				if ps.End != "return" {
+					continue
+				}
+				if len(ps.Ret) == 1 {
+					if _, refuses := c.sentinelError(ps.Ret[0]); refuses {
+						continue
+					}
+				}
+				n++
+				through := false
+				for _, e := range ps.Events {
+					if (e.Kind == "call" || e.Kind == "enter") && e.Fn != nil && (e.Fn == assigner || (ix.Info[e.Fn] != nil && ix.Info[e.Fn].TWrites["seat_manager.SeatManager.bb"])) {
+						through = true
+					}
+				}
+				if !through {
+					bad = append(bad, "Next succeeds under ["+ps.CondString()+"] without assigning the blinds")
+				}
+			}
+			c.check(len(bad) == 0 && n > 0, "blinds-follow-button", fnKey(next), p.FnPos(next), "every path of Next that does not refuse assigns the blinds", "a hand can be set up with last hand's blinds", uniq(bad, 2)...)
 		}
 	}
 
@@ -958,7 +1004,13 @@ func startsAtBB(ix *Index, v ssa.Value, fn *ssa.Function, depth int, bind map[*s
 	switch x := v.(type) {
 	case *ssa.Slice:
 		ex, ok := x.Low.(*ssa.Extract)
-		if !ok || ex.Index != 1 || x.High != nil {
+		if !ok || x.High != nil {
+			return false
+		}
+		if ex.Index != 1 && !wrappedSearchIndex(ex, x.X) {
+			return false
+		}
+		if ex.Index == 0 {
 			return false
 		}
 		// the same call's first result is stored to the bb field
@@ -1035,4 +1087,86 @@ func viaCallers(ix *Index, prm *ssa.Parameter, fn *ssa.Function, ok func(arg ssa
 		}
 	}
 	return true
+}
+
+// unwrapSearch: a loop-free function that hands back, as its first result, the first result of
+// another function of the module is a wrapper of that search (it re-slices the list, say); the
+// predicate lives in the function that holds the loop.
+func unwrapSearch(f *ssa.Function, depth int) *ssa.Function {
+	if f == nil || depth > 2 || len(f.Blocks) == 0 || len(findLoops(f)) > 0 {
+		return f
+	}
+	var inner *ssa.Function
+	for _, b := range f.Blocks {
+		r, ok := b.Instrs[len(b.Instrs)-1].(*ssa.Return)
+		if !ok || len(r.Results) == 0 {
+			continue
+		}
+		v := r.Results[0]
+		if ex, ok := v.(*ssa.Extract); ok && ex.Index == 0 {
+			v = ex.Tuple
+		}
+		call, ok := v.(*ssa.Call)
+		if !ok {
+			return f
+		}
+		g := call.Common().StaticCallee()
+		if g == nil || !inModule(g) || (inner != nil && inner != g) {
+			return f
+		}
+		inner = g
+	}
+	if inner == nil {
+		return f
+	}
+	return unwrapSearch(inner, depth+1)
+}
+
+// wrappedSearchIndex: ex is result k of a call of a loop-free wrapper whose result 0 and result k
+// are the seat and the index found by one inner search, and list (when it is another result of
+// the same call) is the list that search was given.
+func wrappedSearchIndex(ex *ssa.Extract, list ssa.Value) bool {
+	call, ok := ex.Tuple.(*ssa.Call)
+	if !ok {
+		return false
+	}
+	w := call.Call.StaticCallee()
+	if w == nil || len(w.Blocks) == 0 || len(findLoops(w)) > 0 {
+		return false
+	}
+	n := 0
+	for _, b := range w.Blocks {
+		r, ok := b.Instrs[len(b.Instrs)-1].(*ssa.Return)
+		if !ok {
+			continue
+		}
+		n++
+		if ex.Index >= len(r.Results) {
+			return false
+		}
+		e0, ok0 := r.Results[0].(*ssa.Extract)
+		ek, okk := r.Results[ex.Index].(*ssa.Extract)
+		if !ok0 || !okk || e0.Tuple != ek.Tuple || e0.Index != 0 || ek.Index != 1 {
+			return false
+		}
+		inner, ok := e0.Tuple.(*ssa.Call)
+		if !ok {
+			return false
+		}
+		if lx, ok := list.(*ssa.Extract); ok && lx.Tuple == ex.Tuple {
+			if lx.Index >= len(r.Results) {
+				return false
+			}
+			given := false
+			for _, a := range inner.Call.Args {
+				if a == r.Results[lx.Index] {
+					given = true
+				}
+			}
+			if !given {
+				return false
+			}
+		}
+	}
+	return n > 0
 }
